@@ -123,14 +123,19 @@ int main(int argc, char** argv) {
             if (R.n["traces"] % 53 == 1) R.sample(rep);
         };
         auto parse_tuple = [&](const std::string& s) { std::vector<size_t> t; size_t p = s.find("tuple="); if (p == std::string::npos) return t; for (size_t i = p + 6; i < s.size(); i++) for (size_t k = 0; k < N; k++) if (pool[k].name[0] == s[i]) t.push_back(k); return t; };
-        if (!a.replay.empty()) { std::string s = slurp(a.replay); auto t = parse_tuple(s); if (t.empty()) return done(2); run_tuple(t, total); return done(total.viol.empty() ? 0 : 1); }
+        if (!a.replay.empty()) { std::string s = slurp(a.replay);
+            size_t ic = s.find("itemcount=");
+            if (ic != std::string::npos) { // itemcount run directly on one pool file
+                for (auto& f : pool) if (f.valid && f.name[0] == s[ic + 10]) { std::vector<CV> out; check_itemcount(f.path, f.rf, "rp", total, out); for (auto& v : out) total.violation("merge|" + v.key, v.what + " [file " + f.name + "]", "itemcount=" + f.name); }
+                return done(total.viol.empty() ? 0 : 1); }
+            auto t = parse_tuple(s); if (t.empty()) return done(2); run_tuple(t, total); return done(total.viol.empty() ? 0 : 1); }
         std::vector<std::vector<size_t>> tuples;
         for (size_t i = 0; i < N; i++) { tuples.push_back({i}); for (size_t j = 0; j < N; j++) { tuples.push_back({i, j}); for (size_t k = 0; k < N; k++) tuples.push_back({i, j, k}); } }
         Pool pl(a.jobs, 300);
         pl.run(tuples.size() + 1, [&](uint64_t i, Result& R) {
             if (a.expired()) { R.deadline_hit = true; return; }
             if (i == tuples.size()) { // itemcount on every valid input
-                for (auto& f : pool) if (f.valid) { std::vector<CV> out; check_itemcount(f.path, f.rf, "p" + std::to_string(getpid()), R, out); R.count("traces"); R.count("nontrivial"); for (auto& v : out) R.violation("merge|" + v.key, v.what + " [file " + f.name + "]", "tuple=" + f.name); }
+                for (auto& f : pool) if (f.valid) { std::vector<CV> out; check_itemcount(f.path, f.rf, "p" + std::to_string(getpid()), R, out); R.count("traces"); R.count("nontrivial"); for (auto& v : out) R.violation("merge|" + v.key, v.what + " [file " + f.name + "]", "itemcount=" + f.name); }
                 return; }
             run_tuple(tuples[i], R);
         }, [&](uint64_t, const std::string& d, Result& R) { R.violation("merge|harness-crash", d.substr(0, 500), pl.last_note); }, total);
